@@ -1,14 +1,75 @@
 /-
 C02 — linear-system solvers and matrix decompositions satisfy their defining equations.
-(first stage: the tie; theorems follow)
+
+Property theorems about the executable model `Model/LinSolve.lean` (tied to
+remora's kernels by `checks/c02.py`: exact correspondence on dyadic systems
+while `FE_INEXACT` stays clear, residual oracle otherwise).  Helper lemmas:
+`Lemmas/LinSolve*.lean`.  All statements are in exact arithmetic (`Rat`) and
+quantify over every size `n`, every matrix / right-hand side, every
+triangular tag and side; nothing is bounded.  What is *not* a theorem here:
+floating-point backward-error bounds, conjugate gradient, convergence of the
+symmetric eigensolver (see MANIFEST note of checks/c02.py).
 -/
-import SharkVerif.Model.LinSolve
+import SharkVerif.Lemmas.LinSolve
 namespace SharkVerif.C02
 open SharkVerif.LinSolve
 
-theorem sum_zero (n : Nat) : sum n (fun _ => 0) = 0 := by
-  induction n with
-  | zero => rfl
-  | succ k ih => simp [sum, ih, Rat.add_zero]
+/-! ## triangular systems -/
+
+/-- `kernels::trsv<Triangular, left>`: for every size, every tag (lower/upper, unit/non-unit),
+if no exception is thrown (no zero on a diagonal that is divided by) the returned vector
+solves `T x = b`, `T` the triangular matrix the tag denotes. -/
+theorem trsv_correct_left (t : Tri) (n : Nat) (A : Mat) (b : Vec)
+    (h : triSingular t n A = false) :
+    ∀ i, i < n → mulVec n (triPart t A) (trsv t true n A b) i = b i := by
+  intro i hi
+  exact trsvLeft_correct t n A b ((regular_iff_not_singular t n A).mpr h) hi
+
+/-- `kernels::trsv<Triangular, right>`: `x T = b`. -/
+theorem trsv_correct_right (t : Tri) (n : Nat) (A : Mat) (b : Vec)
+    (h : triSingular t n A = false) :
+    ∀ j, j < n → vecMul n (trsv t false n A b) (triPart t A) j = b j := by
+  intro j hj
+  have hr := ((regular_iff_not_singular t n A).mpr h).transposed
+  have key := trsvLeft_correct t.transposed n (transpose A) b hr hj
+  rw [← key]
+  unfold vecMul mulVec trsv trsvArr
+  apply sum_congr; intro k _
+  rw [triPart_transposed]
+  simp [Rat.mul_comm]
+
+/-- both sides in one statement -/
+theorem trsv_correct (t : Tri) (left : Bool) (n : Nat) (A : Mat) (b : Vec)
+    (h : triSingular t n A = false) :
+    ∀ i, i < n →
+      (if left then mulVec n (triPart t A) (trsv t left n A b) i
+       else vecMul n (trsv t left n A b) (triPart t A) i) = b i := by
+  intro i hi
+  cases left
+  · simpa using trsv_correct_right t n A b h i hi
+  · simpa using trsv_correct_left t n A b h i hi
+
+/-- non-vacuity: a 2×2 lower system with garbage in the unused triangle -/
+example : triSingular ⟨false, false⟩ 2 (fun i j => if i = 0 ∧ j = 1 then 7 else 2) = false := by decide
+
+/-- `kernels::trsm<Triangular, left>`: `T X = B` for an `n × m` right-hand side. -/
+theorem trsm_correct_left (t : Tri) (n m : Nat) (A B : Mat) (h : triSingular t n A = false) :
+    ∀ i k, i < n → k < m → mul n (triPart t A) (trsm t true n m A B) i k = B i k := by
+  intro i k hi hk
+  have key := trsv_correct_left t n A (fun i' => B i' k) h i hi
+  rw [← key]
+  unfold mul mulVec trsm trsmArr trsv
+  apply sum_congr; intro j _
+  simp [mget, vget, Array.getD_eq_getD_getElem?, Array.getElem?_ofFn, hk]
+
+/-- `kernels::trsm<Triangular, right>`: `X T = B` for an `m × n` right-hand side. -/
+theorem trsm_correct_right (t : Tri) (n m : Nat) (A B : Mat) (h : triSingular t n A = false) :
+    ∀ k j, k < m → j < n → mul n (trsm t false n m A B) (triPart t A) k j = B k j := by
+  intro k j hk hj
+  have key := trsv_correct_right t n A (fun i' => B k i') h j hj
+  rw [← key]
+  unfold mul vecMul trsm trsmArr trsv
+  apply sum_congr; intro i _
+  simp [mget, vget, Array.getD_eq_getD_getElem?, Array.getElem?_ofFn, hk]
 
 end SharkVerif.C02
